@@ -56,6 +56,8 @@ type Network struct {
 	Dials     []DialAttempt
 	eph       int
 	obj       *vrt.Obj
+	// SeqFn, if set, returns the current length of the world's observation log.
+	SeqFn func() int
 }
 
 var current *Network
@@ -117,9 +119,10 @@ type Conn struct {
 
 // Chunk is one logged write.
 type Chunk struct {
-	T int64
-	G string
-	B []byte
+	T   int64
+	G   string
+	B   []byte
+	Seq int // length of the world's observation log when the write happened
 }
 
 func (nw *Network) pair(libLocal, libRemote *net.TCPAddr, inbound bool) (lib, rem *Conn) {
@@ -213,7 +216,11 @@ func (c *Conn) Write(p []byte) (int, error) {
 	}
 	b := append([]byte(nil), p...)
 	c.Sent = append(c.Sent, b...)
-	c.Chunks = append(c.Chunks, Chunk{T: vrt.Cur().Now(), G: vrt.Cur().Self().Name(), B: b})
+	seq := 0
+	if c.nw.SeqFn != nil {
+		seq = c.nw.SeqFn()
+	}
+	c.Chunks = append(c.Chunks, Chunk{T: vrt.Cur().Now(), G: vrt.Cur().Self().Name(), B: b, Seq: seq})
 	if c.peer.closed {
 		// the remote kernel answers with RST: this write succeeded, later
 		// operations fail
